@@ -23,6 +23,17 @@ fn main() {
     match mode {
         "serve" => serve(),
         "crashchild" => ops_crash::child_main(&args[2..]),
+        // the production entry point `run_server` (logging set-up, Backend::new, stdio transport), as main.rs runs it
+        "runserver" => {
+            let rt = tokio::runtime::Builder::new_multi_thread().enable_all().build().expect("runtime");
+            match rt.block_on(version_lsp::lsp::server::run_server()) {
+                Ok(()) => std::process::exit(0),
+                Err(e) => {
+                    eprintln!("run_server returned: {e}");
+                    std::process::exit(1)
+                }
+            }
+        }
         other => {
             eprintln!("unknown mode {other}");
             std::process::exit(2);
